@@ -67,7 +67,7 @@ class DateTimeArray(MutableSequence[DateTime]):
         """
         if isinstance(index, int):
             # bool is an int: NumPy would treat it as a mask.
-            entry = self._array[int(index)].item()
+            entry = self._array[self._validate_index(index)].item()
             as_tuple = TimeValueTuple.from_cvi(*entry)
             return DateTime.from_tuple(as_tuple)
         elif isinstance(index, slice):
@@ -78,6 +78,13 @@ class DateTimeArray(MutableSequence[DateTime]):
             return new_array
         else:
             raise invalid_arg_type("index", "int or slice", index)
+
+    def _validate_index(self, index: int) -> int:
+        # NumPy raises OverflowError for indices that do not fit in a C integer; a list raises IndexError.
+        index = int(index)
+        if not -len(self._array) <= index < len(self._array):
+            raise IndexError(f"index {index} is out of bounds for array of length {len(self._array)}")
+        return index
 
     def __len__(self) -> int:
         """Return len(self)."""
@@ -104,7 +111,7 @@ class DateTimeArray(MutableSequence[DateTime]):
         if isinstance(index, int):
             if not isinstance(value, DateTime):
                 raise invalid_arg_type("value", "DateTime", value)
-            self._array[int(index)] = value.to_tuple().to_cvi()
+            self._array[self._validate_index(index)] = value.to_tuple().to_cvi()
         elif isinstance(index, slice):
             if not isinstance(value, Iterable):
                 raise invalid_arg_type("value", "iterable of DateTime", value)
